@@ -17,11 +17,18 @@ from migen.fhdl.structure import _Operator, _Slice, _Assign, _Fragment
 # Print Constant -----------------------------------------------------------------------------------
 
 def _generate_constant(node):
+    # Signed Constant: a sized literal is only signed with the 's' flag (an unsigned literal makes the
+    # whole Verilog expression unsigned), print its two's complement pattern.
+    if node.signed:
+        return "{bits}'sd{value}".format(
+            bits  = str(node.nbits),
+            value = node.value & (2**node.nbits - 1),
+        ), True
     return "{sign}{bits}'d{value}".format(
         sign  = "" if node.value >= 0 else "-",
         bits  = str(node.nbits),
         value = abs(node.value),
-    ), node.signed
+    ), False
 
 # Print Signal -------------------------------------------------------------------------------------
 
